@@ -130,6 +130,10 @@ func genC13(seed uint64, run int, tier string) Scenario {
 				s := word(r, sessAlpha, 1, 20)
 				if l == failLine {
 					s = word(r, sessAlpha, 0, 6) + pick(r, inForce...) + word(r, sessAlpha, 0, 6)
+					if r.IntN(4) == 0 {
+						// the device complains twice: two of the strings in force in one output
+						s += " " + pick(r, inForce...) + word(r, sessAlpha, 0, 4)
+					}
 				} else if len(other) > 0 && r.IntN(6) == 0 {
 					// a string of the list that is NOT in force must not mark the response
 					s += pick(r, other...)
